@@ -4,9 +4,42 @@ NOTES = "Contract-based deductive verification of the real code: tools/vx copies
 NA = {
     "C17": "no contract can express that two tasks overlap in time or that one task's progress does not wait on another's: it is a statement about the executor and wall-clock, which rule R1 (.await removed) drops by construction and for which neither Verus nor Kani has a model (DESIGN.md section 7, C17)",
 }
+ACT_NOTE = "Assumed: channel FIFO/lossless and oracle contracts of the select! arms (A-chan), derived Hash/Eq/Clone (A-hash, A-clone), vstd std specs + HashMap::get_mut/remove_entry/HashSet::clone (A-std), process stubs (A-proc), R1 (await dropped), R16 (case split per select arm). From per-actor invariants to the whole-run statement: composition argument DESIGN section 8 (A-bridge)."
 TEXT = {
     "C01": {
-        "level": "Proof, for every dependency set and every sequence of delivered events: loop invariants of the three actor loops (pending set == function of the delivery log; a start only when the latest word of every dependency, both kinds, is Ok; Ok is only told in a state reached by a successful, not-invalidated run / spawn / empty pending set; every message carries the sender's id). An inductive invariant over an arbitrary event sequence covers every interleaving and graph, which tests cannot.",
-        "note": "Assumed: channel FIFO/lossless (A-chan), derived Hash/Eq/Clone (A-hash, A-clone), vstd std specs + HashMap::get_mut (A-std), process stubs (A-proc), R1 (await dropped), R16 (case split per select arm). From per-actor invariants to the whole-run statement: composition argument DESIGN section 8 (A-bridge), mechanised only as far as the COMP lemmas go.",
+        "level": "Proof, for every dependency set and every sequence of delivered events: loop invariants of the three actor loops (pending set == function of the delivery log; a start only when the latest word of every dependency, both kinds, is Ok; Ok is only told in a state reached by a successful, not-invalidated run / spawn / empty pending set; every message carries the sender's id), and the relay forwards every message unchanged to the actor launched for its addressee. An inductive invariant over an arbitrary event sequence covers every interleaving and graph, which tests cannot.",
+        "note": ACT_NOTE,
+    },
+    "C04": {
+        "level": "Proof of the safety skeleton of termination, for every graph and interleaving: AckInv (every registered requester has been told the current truth, also one registering after completion), the start guard is exactly the stated condition, the first requester makes the actor request every dependency, the relay forwards every message, root sets shrink exactly on the matching Ok, the loop exits exactly on termination or both sets empty, relay-side inbox sends never block (wait-for discipline), no unwrap/index can panic. A lost wake-up or queue dead-lock is a reachable state violating one of these. Liveness itself (fairness, script termination) is not claimed.",
+        "note": ACT_NOTE + " Not covered: executor fairness, that scripts terminate, any time bound.",
+    },
+    "C05": {
+        "level": "Proof (partial until the INC unit is finished): build_target returns Completed only for a successful exit status, Cancelled only after a cancellation message, Err when nothing was spawned; a failed run is never acknowledged to requesters. The crash-as-precondition obligations on incremental::run (delete-first, write-on-success-only, corrupt record dropped) are added by the INC unit.",
+        "note": ACT_NOTE + " A-codec prefix-freeness and kernel ordering for the crash points (INC).",
+    },
+    "C06": {
+        "level": "Proof of the safety obligations behind convergence: an invalidation sets to_execute and tells every requester; a pending invalidation is never cleared except by a start (also not by a failure); a run invalidated in flight is not acknowledged; dependency invalidation is recorded before anything else; the watch relay forwards every message and does not return on a failure. Convergence as liveness is not claimed.",
+        "note": ACT_NOTE + " Not covered: that the re-run eventually happens; notify's delivery guarantees; record-precedes (INC) and the event filter (WCH) are added by those units.",
+    },
+    "C07": {
+        "level": "Proof: a non-zero exit status or spawn failure is an Err; the Err branch reports TargetExecutionError with the actor's own id, sends no Ok and leaves the target not executed and not re-armed; execute_once returns Err on it, watch does not return on it; with C01 a dependent of a failed target never has all words Ok.",
+        "note": ACT_NOTE + " Not covered: the text of the error message.",
+    },
+    "C08": {
+        "level": "Proof of 'at most once' and 'only launched from the resolved map': a start requires to_execute and clears it, starts <= 1 + invalidation stimuli received, a single build in flight (Fuse::set requires the fuse idle), no Invalidated is ever sent without a stimulus and no watcher exists in one-shot mode, an actor is launched at most once and only for an id of the resolved map, duplicate requests change nothing.",
+        "note": ACT_NOTE + " 'At least once' is C04's liveness. 'Only the closure is loaded' is C09 (CFG unit).",
+    },
+    "C10": {
+        "level": "Proof of the resource half: build_target waits for (and on cancellation kills) the child on every return path; stop_service leaves no child un-killed/un-waited and the service actor ends with it; a build actor leaves its loop only with no build in flight and after a cancellation was sent; terminate() sends a termination message to every launched actor and joins every task; both relay loops leave after the termination arm; relay sends cannot block. Promptness is not claimed.",
+        "note": ACT_NOTE + " Not covered: any latency bound; grandchildren of the shell; the signal-handler task.",
+    },
+    "C11": {
+        "level": "Proof: execute_once returns Ok without awaiting termination exactly when termination was received or no root reported an actual service; a root counts as service root iff its Ok{Service} had actual; build actors answer service requests with actual=false, service actors with true, aggregates with 'some dependency reported actual'; at most one child of a service actor is live and restart stops before it spawns; the service actor ends with its child killed and waited.",
+        "note": ACT_NOTE,
+    },
+    "C20": {
+        "level": "Proof: an aggregate asks every dependency on the first requester of a kind, acknowledges upward exactly when nothing of that kind is pending (also at once for an empty aggregate or a late requester), reports actual = some dependency reported actual, forwards invalidation only after a stimulus, never executes anything itself.",
+        "note": ACT_NOTE + " Not covered: the metamorphic comparison of two real invocations (composition lemma in COMP).",
     },
 }
